@@ -49,43 +49,43 @@ fn full_alpide_decode_step() {
         // a skipped (hit payload) byte: only the skip count changes, whatever the byte
         assert!(a.skip_n_bytes == sk - 1 && a.is_header_seen == hs && a.last_chip_id == lc && a.next_is_bc == nb
             && a.lane_status_fatal == fatal && a.chip_data.len() == n as usize && trailers == trailers0,
-            "[C13] hit payload bytes only count down the skip counter (verdict independent of hit content)");
+            "[C13][C01][C02] hit payload bytes only count down the skip counter (verdict independent of hit content)");
     } else if nb {
         assert!(!a.next_is_bc && a.skip_n_bytes == 0 && a.is_header_seen == hs && a.lane_status_fatal == fatal && trailers == trailers0,
-            "[C13] the byte after a chip header / empty frame is consumed as the bunch counter");
+            "[C13][C01][C02] the byte after a chip header / empty frame is consumed as the bunch counter");
         // stored for the chip whose header was last seen
         let known = (n >= 1 && ids[0] == lc) || (n >= 2 && ids[1] == lc);
         if !known {
-            assert!(a.chip_data.len() == n as usize + 1, "[C13] a new chip is recorded with its bunch counter");
+            assert!(a.chip_data.len() == n as usize + 1, "[C13][C01][C02] a new chip is recorded with its bunch counter");
             let cd = &a.chip_data[n as usize];
-            assert!(cd.chip_id == lc && cd.bunch_counter == Some(b), "[C13] chip id and bunch counter are those of the header");
+            assert!(cd.chip_id == lc && cd.bunch_counter == Some(b), "[C13][C01][C02] chip id and bunch counter are those of the header");
             assert!(!a.has_errors(), "[C13][C01] a first bunch counter for a chip is not an error");
         } else {
             let k = if n >= 1 && ids[0] == lc { 0 } else { 1 };
-            assert!(a.chip_data.len() == n as usize, "[C13] a chip seen again is not recorded twice");
+            assert!(a.chip_data.len() == n as usize, "[C13][C01][C02] a chip seen again is not recorded twice");
             if bcs[k].is_none() {
-                assert!(a.chip_data[k].bunch_counter == Some(b) && !a.has_errors(), "[C13] bunch counter stored for the known chip");
+                assert!(a.chip_data[k].bunch_counter == Some(b) && !a.has_errors(), "[C13][C01][C02] bunch counter stored for the known chip");
             } else {
                 assert!(a.chip_data[k].bunch_counter == bcs[k] && a.has_errors(), "[C13][C02] a second bunch counter for the same chip is reported");
             }
         }
     } else if !hs && b == 0 {
         assert!(a.skip_n_bytes == 0 && !a.is_header_seen && a.last_chip_id == lc && !a.next_is_bc && a.lane_status_fatal == fatal
-            && a.chip_data.len() == n as usize && trailers == trailers0, "[C13] padding between chips is ignored");
+            && a.chip_data.len() == n as usize && trailers == trailers0, "[C13][C01][C02] padding between chips is ignored");
     } else {
         let exp_skip = if (0x40..=0x7F).contains(&b) { 1 } else if b <= 0x3F { 2 } else { 0 };
-        assert!(a.skip_n_bytes == exp_skip, "[C13] data short skips 1 byte, data long skips 2: hit content is never decoded");
+        assert!(a.skip_n_bytes == exp_skip, "[C13][C01][C02] data short skips 1 byte, data long skips 2: hit content is never decoded");
         let hdr = (0xA0..=0xAF).contains(&b);
         let empty = (0xE0..=0xEF).contains(&b);
         let trailer = (0xB0..=0xBF).contains(&b);
         let region = (0xC0..=0xDF).contains(&b);
         let exp_hs = if hdr || region { true } else if empty || trailer { false } else { hs };
-        assert!(a.is_header_seen == exp_hs, "[C13] chip/region header opens, chip trailer / empty frame closes a chip's data");
-        assert!(a.next_is_bc == (hdr || empty), "[C13] chip header and chip empty frame are followed by the bunch counter byte");
-        assert!(a.last_chip_id == if hdr || empty { b & 0xF } else { lc }, "[C13] chip id is the low nibble of chip header / empty frame");
-        assert!(trailers == trailers0 + trailer as u32, "[C13] readout flags are logged for chip trailers only");
-        assert!(a.lane_status_fatal == (fatal || is_fatal_ape(b)), "[C13] exactly the fatal APEs mark the lane fatal");
-        assert!(a.chip_data.len() == n as usize, "[C13] chips are recorded only with their bunch counter");
+        assert!(a.is_header_seen == exp_hs, "[C13][C01][C02] chip/region header opens, chip trailer / empty frame closes a chip's data");
+        assert!(a.next_is_bc == (hdr || empty), "[C13][C01][C02] chip header and chip empty frame are followed by the bunch counter byte");
+        assert!(a.last_chip_id == if hdr || empty { b & 0xF } else { lc }, "[C13][C01][C02] chip id is the low nibble of chip header / empty frame");
+        assert!(trailers == trailers0 + trailer as u32, "[C13][C01][C02] readout flags are logged for chip trailers only");
+        assert!(a.lane_status_fatal == (fatal || is_fatal_ape(b)), "[C13][C01][C02] exactly the fatal APEs mark the lane fatal");
+        assert!(a.chip_data.len() == n as usize, "[C13][C01][C02] chips are recorded only with their bunch counter");
     }
     kani::cover!(sk == 0 && !nb && is_fatal_ape(b));
     kani::cover!(sk == 0 && nb && n == 2);
@@ -124,7 +124,7 @@ fn full_alpide_chip_order_ib() {
     let id: u8 = kani::any();
     a.chip_data.push(AlpideFrameChipData::from_id_no_data(id));
     let r = a.check_chip_id_order();
-    assert!(r.is_err() == (id != a.lane_number), "[C13] inner-barrel chip id must equal its lane (E9005)");
+    assert!(r.is_err() == (id != a.lane_number), "[C13][C01][C02] inner-barrel chip id must equal its lane (E9005)");
 }
 
 fn stub_random_state_new() -> std::hash::RandomState {
@@ -142,5 +142,5 @@ fn stub_random_state_new() -> std::hash::RandomState {
 fn full_bunch_counters_empty_nopanic() {
     let mut a = LaneAlpideFrameAnalyzer::new(Layer::Outer, None, None);
     let r = a.check_bunch_counters();
-    assert!(r.is_ok() && a.validated_bc().is_none(), "[C13] a lane without any chip has no bunch counter mismatch and no validated bunch counter");
+    assert!(r.is_ok() && a.validated_bc().is_none(), "[C13][C01][C02] a lane without any chip has no bunch counter mismatch and no validated bunch counter");
 }
